@@ -51,24 +51,14 @@ theorem setN_ok_value (st : Sspor) (k : Nat) (r : List Nat) (hr : st.ranking = s
     (st.setN (.int k)).2 = none ∧ (st.setN (.int k)).1.nSensors = some k := by
   unfold Sspor.setN
   rw [hr]
-  have h1 : ¬ ((k : Int) ≤ 0) := by omega
+  have h1 : k ≠ 0 := by omega
   have h2 : ¬ ((k : Int) > (r.length : Int)) := by omega
   simp [h1, h2]
 
 /-- **C14/C19.** A rejected setter call leaves the whole model unchanged. -/
 theorem setN_rejected_unchanged (st : Sspor) (v : PyCount) (h : (st.setN v).2 ≠ none) :
     (st.setN v).1 = st := by
-  unfold Sspor.setN at h ⊢
-  split
-  · rfl
-  · split
-    · rfl
-    · split
-      · rfl
-      · split
-        · rfl
-        · rename_i r hr z h1 h2
-          simp [hr, h1, h2] at h
+  grind [Sspor.setN]
 
 /-- value chosen by the last accepted call of a setter sequence (none = no call was accepted) -/
 def lastAccepted (n : Nat) : List PyCount → Option Nat
@@ -100,6 +90,14 @@ theorem setN_fitted (st : Sspor) (v : PyCount) (r : List Nat) (hr : st.ranking =
       · have : (0 < z ∧ z ≤ (r.length : Int)) := by omega
         simp [h1, h2, this]
 
+theorem lastAccepted_cons_some {n : Nat} {v : PyCount} {vs : List PyCount} {k : Nat}
+    (h : lastAccepted n vs = some k) : lastAccepted n (v :: vs) = some k := by
+  simp [lastAccepted, h]
+
+theorem lastAccepted_cons_none {n : Nat} {v : PyCount} {vs : List PyCount}
+    (h : lastAccepted n vs = none) : lastAccepted n (v :: vs) = lastAccepted n [v] := by
+  simp [lastAccepted, h]
+
 /-- **C14 (last wins).** After any sequence of setter calls (valid and invalid values, in any
 order) a fitted model is in the state reached by the single last accepted call – or unchanged if
 none was accepted. -/
@@ -115,14 +113,12 @@ theorem setters_last_wins (st : Sspor) (r : List Nat) (hr : st.ranking = some r)
     have hr' : (st.setN v).1.ranking = some r := by rw [(setN_preserves_ranking st v).1, hr]
     rw [ih (st.setN v).1 hr']
     rw [setN_fitted st v r hr]
-    unfold lastAccepted
     cases hl : lastAccepted r.length vs with
     | some k =>
-      simp only []
-      cases h1 : lastAccepted r.length [v] <;> simp
+      rw [lastAccepted_cons_some hl]
+      cases lastAccepted r.length [v] <;> rfl
     | none =>
-      simp only []
-      simp [lastAccepted]
+      rw [lastAccepted_cons_none hl]
 
 /-- hence the observable state equals that of a model which only ever received the final value -/
 theorem setters_observe_last (st : Sspor) (r : List Nat) (hr : st.ranking = some r)
@@ -130,6 +126,12 @@ theorem setters_observe_last (st : Sspor) (r : List Nat) (hr : st.ranking = some
     (vs.foldl (fun s v => (s.setN v).1) st).observe =
       ({ st with nSensors := some k, defaulted := false } : Sspor).observe := by
   rw [setters_last_wins st r hr vs, hk]
+
+/-- the matrix representation of a basis has one row per feature of the data it was fitted on
+(every basis kind, every requested mode count) -/
+theorem basis_fit_rep_rows (b b' : BasisSt) (ne nf : Nat) (k : Option Nat) (shape : Nat × Nat)
+    (hb : b.fit ne nf = (b', none)) (hrep : b'.rep k = .ok shape) : shape.1 = nf := by
+  grind [BasisSt.fit, BasisSt.rep]
 
 /-- **C14.** `SSPOR(n_sensors=k).fit(x)` and `SSPOR().fit(x); set_number_of_sensors(k)` are
 observably the same model (same data, same optimizer ranking). -/
@@ -155,19 +157,13 @@ theorem ctor_fit_eq_fit_set (b : BasisSt) (k ne nf : Nat) (o : List Nat) (hk : 0
       | ok shape =>
         simp only [hrep] at hfit ⊢
         simp only [Int.toNat_natCast] at hfit ⊢
+        have hshape : shape.1 = nf := basis_fit_rep_rows b b' ne nf none shape hb hrep
         by_cases hgt : k > shape.1
         · simp [hgt] at hfit
-        · have hshape : shape.1 = nf := by
-            -- the matrix has one row per feature of the data it was fitted on
-            unfold BasisSt.rep at hrep
-            unfold BasisSt.fit at hb
-            split at hb <;> simp at hb <;> (try split at hb) <;> simp at hb <;>
-              (obtain ⟨hb1, -⟩ := hb; subst hb1; simp at hrep; (try split at hrep) <;> simp at hrep <;>
-                (try (obtain ⟨h1, -⟩ := hrep; omega)) <;> (try (rw [← hrep])))
-          simp only [hgt, if_false]
+        · simp only [hgt, if_false]
           unfold Sspor.setN
           simp only []
-          have h1 : ¬ ((k : Int) ≤ 0) := by omega
+          have h1 : k ≠ 0 := by omega
           have h2 : ¬ ((k : Int) > (o.length : Int)) := by rw [ho, ← hshape]; omega
           simp [h1, h2, Sspor.observe, Sspor.selected]
 
